@@ -78,3 +78,15 @@ OPT1_NO_CASCADE = {"comment": "documented in the source: 'Comment doesn't cascad
 # CLONE: constructor-defined fields that clone() deliberately leaves at their default ("Class.attr" -> reason)
 CLONE_NOT_COPIED = {
 }
+
+# FT17: functions whose build_field_model call needs no `model is None` guard (function -> reason)
+FT17_FRESH = {
+    "covergroup_interposer.with_sample": "sample parameters are the type objects written in the with_sample(...) call itself; they are created for this "
+                                           "covergroup, belong to no other object and have had no value written",
+}
+
+# NM5: stores a per-call visitor may leave on a visited object ("<Visitor>.<method>|<attr>" -> reason)
+NM5_OK = {
+    "ConstraintOverrideRollbackVisitor.visit_constraint_override|depth": "nesting counter of the override wrapper, which is itself installed per call and "
+                                                                         "removed by this very visitor",
+}
